@@ -645,8 +645,15 @@ def rule_who_writes(F, ev, R, config, rule="R-WHO-WRITES"):
                           "" if ok else "mutable borrow of problem field `%s` (only the model, as receiver of Model::set_params inside set_params, may be borrowed mutably)" % role, s.get("span"))
             if rv["k"] == "agg" and rv.get("adt") == ADT_PROBLEM:
                 im = b.j.get("impl", {})
-                allowed = (im.get("self_adt") == ADT_PROBLEM and (b.name in ("into_sequential", "into_parallel") or im.get("trait") == "std::clone::Clone")) or \
-                          (im.get("self_adt") == ADT_PBUILDER)
+                def allowed_ctor(bb):
+                    im_ = bb.j.get("impl", {})
+                    return (im_.get("self_adt") == ADT_PROBLEM and (bb.name in ("into_sequential", "into_parallel") or im_.get("trait") == "std::clone::Clone")) or \
+                           (im_.get("self_adt") == ADT_PBUILDER)
+                allowed = allowed_ctor(b)
+                if not allowed and b.j.get("vis") != "pub" and b.kind != "Closure" and not im.get("trait"):
+                    # a private constructor helper (`fn from_parts(fields..) -> Self`) that only the allowed constructors call
+                    callers = [F.bodies[c] for c in local_callers(F).get(b.key, ()) if c in F.bodies]
+                    allowed = bool(callers) and all(allowed_ctor(c) for c in callers)
                 R.add(rule, config, b.key, "constructs-problem", allowed,
                       "" if allowed else "a LevMarProblem is constructed outside build()/into_*/Clone", s.get("span"))
     R.floor(rule, config, 9 if not config.endswith("parallel") else 11, "5+3 private fields, cache writes, model borrow, constructors")
@@ -1246,8 +1253,9 @@ def rule_obs_reshape(F, ev, R, config, rule="R-OBS-RESHAPE"):
         v = ev.ret_val(Env(b))
         ok = False
         msg = "observations() returns `%s`" % short(v)[:200]
-        if v[0] == "agg" and v[1] == ADT_PBUILDER:
-            y = dict(v[3])[br["data"]]
+        fv_ = struct_view(F, v, ADT_PBUILDER)   # aggregate, or `mut self; self.Y = ..; self` (an update of the receiver)
+        if fv_ is not None and br["data"] in fv_:
+            y = fv_[br["data"]]
             arg = ("param", b.key, 2)
             if y[0] == "opt" and not y[2]:
                 p = y[1]
